@@ -1,0 +1,20 @@
+//go:build verif
+
+// Verification hooks for property C20 (sync convergence over block trees): access to stableBlockLoop.
+// Add-only, compiled only with -tags verif; the production functions run unchanged.
+package network
+
+import "github.com/LemoFoundationLtd/lemochain-core/chain/types"
+
+// VerifC20StableBlockLoop runs ProtocolManager.stableBlockLoop (blocks until Stop).
+func (pm *ProtocolManager) VerifC20StableBlockLoop() { pm.stableBlockLoop() }
+
+// VerifC20PushStable hands a NewStableBlock event to THIS manager's stableBlockLoop, on the channel the
+// process-wide event bus would write to (the bus itself would deliver it to every live manager).
+func (pm *ProtocolManager) VerifC20PushStable(b *types.Block) { pm.stableBlockCh <- b }
+
+// tokens of the built-in test mode (see VerifC20SetTest) that a stable event produces
+const (
+	VerifC20StableBlock    = testStableBlock
+	VerifC20BroadcastBlock = testBroadcastBlock
+)
